@@ -24,6 +24,12 @@ ASSUMPTIONS = ["each structured program is rendered as Python source twice and e
                "block condition is rejected by the library at merge time (RuntimeError, checked by a fixed probe on every run) and is outside the property",
                "for-loop bounds are drawn in 0..max (the domain of _range(bound, max=...)); a 5 % stream takes a bound out of its cap and is compared "
                "model-vs-code only, except negative bounds, which are the known finding C09-negative-bound",
+               "`_range(bound, max=M, checkstopmax=True)` (the loop asserts at its end that the bound did not exceed the maximum): a fifth of the "
+               "generated for loops / named range objects and a fixed family (loop at top level, inside a taken or not-taken `if`, nested, "
+               "inside a `while`, one range object for two loops) whose first input vector has the bound EQUAL to the maximum with every "
+               "enclosing branch taken; for-loop bounds of every program are drawn at the cap itself 30 % of the time; the constraint system is "
+               "compared across the three input vectors as for every program; these programs are outside the Lean statement language "
+               "(Model/Branching.lean has no checkstopmax): direct oracle only, counted as unmodelled",
                "a malformed stream (variable bound in only some arms / inside a loop / else dropped) is compared model-vs-code only: "
                "the library reports these as RuntimeError by design",
                "comparison operands must fit the bit length (16 here): a run in which the library's own range check raises ValueError is counted "
@@ -119,6 +125,7 @@ class G:
         self.rnd = rnd; self.ninp = ninp; self.nextvar = nextvar; self.maxdepth = maxdepth
         self.budget = rnd.randrange(3, 10)
         self.ranges = []          # `_range` objects bound to a name: (name, input index, max), used by several loops
+        self.range_opts = {}      # name -> options of that `_range` object
 
     def fresh(self):
         v = f"x{self.nextvar}"; self.nextvar += 1
@@ -159,6 +166,7 @@ class G:
                 mx = rnd.randrange(1, 5)
                 k = rnd.randrange(self.ninp)
                 shared = None
+                csm = rnd.random() < 0.2            # `checkstopmax=True`: the loop ends with the stop-exceeds-max assertion
                 if rnd.random() < 0.4:
                     # one `_range(...)` object bound to a name and iterated by several loops, nested and in sequence
                     # (Python's `range` supports both); the bound is an input, so evaluating it once changes nothing
@@ -166,8 +174,9 @@ class G:
                         shared, k, mx = rnd.choice(self.ranges)
                     else:
                         shared = f"r{len(self.ranges)}"; self.ranges.append((shared, k, mx))
+                        if csm: self.range_opts[shared] = {"checkstopmax": True}
                 st = ["for", lv, ["in", k], mx, self.block(vars_, depth + 1, loopvars + (lv,), allow_new=False)]
-                out.append(st + [shared] if shared else st)
+                out.append(st + [shared] if shared else st + [None, {"checkstopmax": True}] if csm else st)
             elif c < 0.95:
                 out.append(["while", gen_cond(rnd, vars_, self.ninp, loopvars), rnd.randrange(0, 4),
                             self.block(vars_, depth + 1, loopvars, allow_new=False),
@@ -221,7 +230,8 @@ def fix_for_bounds(prog, rnd, outside=False):
             caps[s[2][1]] = min(caps.get(s[2][1], s[3]), s[3])
     walk(prog["body"], see)
     for k, mx in caps.items():
-        prog["inputs"][k] = rnd.randrange(0, mx + 1)
+        # the cap itself is where a loop is still live when it ends: drawn on purpose, not only by chance
+        prog["inputs"][k] = mx if rnd.random() < 0.3 else rnd.randrange(0, mx + 1)
     if outside and caps:
         k = rnd.choice(sorted(caps))
         prog["inputs"][k] = rnd.choice([-1, -2, caps[k] + 1, caps[k] + 2])
@@ -261,7 +271,7 @@ def gen_prog(rnd, stream="valid"):
             "inputs": [rnd.randrange(-2, 6) for _ in range(ninp)]}
     g = G(rnd, ninp, nv, rnd.choice([2, 3, 3]))
     prog["body"] = g.block(vars_, 0)
-    prog["body"] = [["range", nm, ["in", k], mx] for nm, k, mx in g.ranges] + prog["body"]
+    prog["body"] = [["range", nm, ["in", k], mx] + ([g.range_opts[nm]] if nm in g.range_opts else []) for nm, k, mx in g.ranges] + prog["body"]
     prog["stream"] = stream
     if not fix_for_bounds(prog, rnd, outside=(stream == "uncapped")) and stream == "uncapped":
         prog["stream"] = "valid"           # no for loop: nothing to take out of its cap
@@ -311,6 +321,31 @@ def templates(rnd):
             p["init"] = {k: rnd.randrange(-2, 5) for k in p["init"]}
             fix_for_bounds(p, rnd)
             out.append(p)
+    return out
+
+
+CSM = {"checkstopmax": True}
+INC0 = ["assign", "x0", ["add", ["var", "x0"], ["const", 1]]]
+CHECKSTOP = [
+    # (inputs with the bound AT the maximum and every enclosing branch taken, body)
+    ([3], [["for", "i0", ["in", 0], 3, [["assign", "x0", ["add", ["var", "x0"], ["loopvar", "i0"]]]], None, CSM]]),
+    ([2, 1], [["if", [[["ge", ["in", 1], ["const", 1]], [["for", "i1", ["in", 0], 2, [INC0], None, CSM]]]], [INC0]]]),
+    ([2, 0], [["if", [[["ge", ["in", 1], ["const", 1]], [INC0]]], [["for", "i1", ["in", 0], 2, [INC0], None, CSM]]]]),
+    ([2, 3], [["for", "i0", ["in", 0], 2, [["for", "i1", ["in", 1], 3, [INC0], None, CSM]], None, CSM]]),
+    ([1, 2], [["while", ["lt", ["var", "x0"], ["const", 40]], 2, [["for", "i1", ["in", 1], 2, [INC0], None, CSM]], None]]),
+    ([2], [["range", "r0", ["in", 0], 2, CSM], ["for", "i0", ["in", 0], 2, [INC0], "r0"], ["for", "i0", ["in", 0], 2, [INC0], "r0"]]),
+    ([4, 1, 1], [["if", [[["eq", ["in", 1], ["const", 1]], [["if", [[["eq", ["in", 2], ["const", 1]], [["for", "i2", ["in", 0], 4, [INC0], None, CSM]]]], None]]]], None]]),
+    ([1], [["for", "i0", ["in", 0], 1, [INC0], None, CSM]]),
+]
+
+
+def checkstop_progs(rnd):
+    """`checkstopmax=True` loops whose FIRST input vector has the bound equal to the maximum and every enclosing branch taken
+    (the twins re-draw the inputs): the constraint system must be the same on all of them"""
+    out = []
+    for inputs, body in CHECKSTOP:
+        out.append({"init": {"x0": rnd.randrange(0, 4)}, "secret_vars": ["x0"], "inputs": list(inputs), "stream": "valid",
+                    "body": json.loads(json.dumps(body))})
     return out
 
 
@@ -482,6 +517,7 @@ def explore(ctx, extended=False, focus=None):
     for p in progs_:
         fix_for_bounds(p, ctx.rnd)
     progs_.append(json.loads(json.dumps(NEG_BOUND)))
+    progs_ += checkstop_progs(ctx.rnd)        # inputs fixed on purpose: bound = maximum, every enclosing branch taken
     while len(progs_) < n:
         r = ctx.rnd.random()
         if r < 0.30:
@@ -502,7 +538,8 @@ def explore(ctx, extended=False, focus=None):
     lines2 = [f"B|t{i}|16|{json.dumps(p)}" for i, p in enumerate(twins)]
     outs = common.run_workers(lines, script="worker_block.py")
     outs2 = common.run_workers(lines2, script="worker_block.py")
-    modelled = list(range(len(progs_)))
+    # `checkstopmax=True` is outside the Lean statement language: those programs are judged by the direct oracle only
+    modelled = [i for i, p in enumerate(progs_) if not uses(p, '"checkstopmax"')]
     okb, outb, _ = common.lake_build(["PysnarkModel.Driver.ProtoBlock"])      # the driver module of this property (no-op when up to date)
     if not okb:
         # the model (or its driver) no longer builds: the tie is broken; the direct oracle still runs
@@ -564,7 +601,8 @@ def explore(ctx, extended=False, focus=None):
             raise common.Infra("lean driver: " + mo[:300])
         ex.count(f"model:{m['status']}")
         if mo is None:
-            pass
+            if uses(p, '"checkstopmax"'):
+                ex.unmodelled += 1; ex.count("construct:for-checkstopmax")
         elif m["status"] == "err:UNMODELLED":
             ex.unmodelled += 1
         else:
@@ -585,6 +623,8 @@ def explore(ctx, extended=False, focus=None):
         if p["stream"] not in ("valid", "typed") and p.get("feature") != "negative-for-bound":
             continue
         sig = {"constructs": sig_kind}
+        if uses(p, '"checkstopmax"'):
+            sig["checkstopmax"] = True
         if p.get("feature"):
             sig["feature"] = p["feature"]
         if p.get("typed"):
